@@ -13,7 +13,7 @@ Spans == {<<>>, << <<0, 0, 0, 3>> >>, << <<1, 0, 1, 0>>, <<0, 1, 1, 0>> >>, << <
 (* TLC cannot build one set of events whose `s` fields have different shapes, *)
 (* hence one homogeneous set per shape.                                       *)
 StartEvents == {Ev("start", r, 0, o, "") : r \in {"api", "main"}, o \in MCOpts} \cup {Ev("start", "repro", 0, NoOpts, "")}
-ReadEvents  == {Ev("read", r, 0, Lens, "") : r \in {"ok", "oserror", "escape"}}
+ReadEvents  == {Ev("read", r, 0, Lens, "") : r \in {"ok", "oserror", "decode_error", "escape"}}
 PhaseEvents == {Ev(k, r, 0, sp, "") : k \in {"parse", "check", "codegen"}, r \in {"ok", "error", "escape"}, sp \in Spans}
 PlainEvents ==
          {Ev(k, r, 0, <<>>, "") : k \in {"args", "open", "render"}, r \in {"ok", "usage", "oserror", "escape"}}
